@@ -429,6 +429,7 @@ pub fn run_l2(rep: &Reporter, args: &Args) {
         ep.task.abort();
         h2_credit_scenario(rep, &dir, seed, args.qt(40usize, 400usize)).await;
     });
+    crate::props::h3_l2::c02_h3(rep, args);
     rep.set("l2", json!({"what": "position-coded streams through real HTTP/1.1 and HTTP/2 tunnels over TLS on loopback (real Core::listen, codecs, TcpForwarder)",
         "largest_transfer_bytes": big, "http2_windows": {"stream": 128 * 1024, "connection": 8 * 1024 * 1024}}));
 }
